@@ -76,3 +76,14 @@ pub fn value_guarded(xs: &[f64]) -> Result<f64, String> {
     }
     Ok(xs[0])
 }
+
+/// engine self-test: a conditional accumulation inside a summarised loop must stay conditional
+pub fn cond_sum(xs: &[f64], marks: &[f64]) -> f64 {
+    let mut acc = 0.0;
+    for i in 0..xs.len() {
+        if marks[i] > 0.5 {
+            acc += xs[i];
+        }
+    }
+    acc
+}
